@@ -17,7 +17,8 @@
 mod options;
 mod progress;
 
-use std::path::PathBuf;
+use std::io::ErrorKind;
+use std::path::{Path, PathBuf};
 use std::{result, thread};
 use std::sync::Arc;
 
@@ -75,6 +76,17 @@ fn expand_sources(source_list: &[String], opts: &Opts) -> Result<Vec<PathBuf>> {
     }
 }
 
+// Path::is_dir() reads a failing stat as "not a directory", which
+// would silently change where things are copied to; only a missing
+// entry should mean that.
+fn is_dir(path: &Path) -> Result<bool> {
+    match path.metadata() {
+        Ok(m) => Ok(m.is_dir()),
+        Err(e) if e.kind() == ErrorKind::NotFound => Ok(false),
+        Err(e) => Err(e.into()),
+    }
+}
+
 fn opts_check(opts: &Opts) -> Result<()> {
     #[cfg(any(target_os = "linux", target_os = "android"))]
     if opts.reflink == Reflink::Never {
@@ -103,8 +115,8 @@ fn main() -> Result<()> {
     let sources = expand_sources(source_patterns, &opts)?;
     if sources.is_empty() {
         return Err(XcpError::InvalidSource("No source files found.").into());
-    } else if !dest.is_dir() {
-        if sources.len() == 1 && sources[0].is_dir() && dest.exists() {
+    } else if !is_dir(&dest)? {
+        if sources.len() == 1 && is_dir(&sources[0])? && dest.try_exists()? {
             return Err(XcpError::InvalidDestination("Cannot copy a directory to a file.").into());
         } else if sources.len() > 1 {
             return Err(XcpError::InvalidDestination("Multiple sources and destination is not a directory.").into());
@@ -114,11 +126,11 @@ fn main() -> Result<()> {
     // Sanity-check all sources up-front
     for source in &sources {
         info!("Copying source {:?} to {:?}", source, dest);
-        if !source.exists() {
+        if !source.try_exists()? {
             return Err(XcpError::InvalidSource("Source does not exist.").into());
         }
 
-        if source.is_dir() && !opts.recursive {
+        if is_dir(source)? && !opts.recursive {
             return Err(XcpError::InvalidSource("Source is directory and --recursive not specified.").into());
         }
         if source == &dest {
@@ -130,7 +142,7 @@ fn main() -> Result<()> {
             .next_back()
             .ok_or(XcpError::InvalidSource("Failed to find source directory name."))?;
 
-        let target_base = if dest.exists() && dest.is_dir() && !opts.no_target_directory {
+        let target_base = if is_dir(&dest)? && !opts.no_target_directory {
             dest.join(sourcedir)
         } else {
             dest.to_path_buf()
